@@ -758,12 +758,7 @@ def arith_programs() -> List[Program]:
             'ptr[:w/4] -= value * 2w    (retreat ptr by value)',
             -c,
             variant=f'value={c}',
-            candidate=(
-                ''
-                if c
-                else 'hex.ptr_sub ptr, 0 does not assemble (hex.sub_constant with constant 0: "negative shift count"), hex.ptr_add ptr, 0 does'
-            ),
-        )
+        )  # (value=0 did not assemble on the pinned tree - hex.sub_constant with constant 0; fixed in /repo eda7b6d)
     mk('bit.ptr_inc', 'bit.ptr_inc p', '(ptr += 2w: "inc" of the property statement; the macro documents only its complexity)', 1, ns='bit')
     mk('bit.ptr_dec', 'bit.ptr_dec p', 'ptr[:n] -= 2w', -1, ns='bit')
 
